@@ -657,6 +657,10 @@ class Driver:
             els.append(lst('nodes'))
             if doc.get('edges') is not None:
                 els.append(lst('edges'))
+                if doc.get('tail') == 'err':
+                    els.append('err')            # the input is damaged after the edge list
+                elif doc.get('tail') == 'extra':
+                    els.append([])               # a well-formed third element
         seq = Agg('StubSeq', [els])
         return self.ex.call(f"<{self.GRAPH}<K, N, E> as Deserialize<'de>>::deserialize::<D>", [seq])
 
